@@ -34,10 +34,18 @@ type scenario struct {
 	links    [][2]int
 	maxHops  byte
 	phantoms []string
+	ids      []string // node IDs (default n0, n1, ...)
 	// setup may inject tables / add name hashes once the mesh has converged; it returns the
 	// (src, target) pairs worth probing in addition to the generic ones
 	setup func(w *world) [][2]string
 	loopy bool // tables are adversarial: the converged-world oracle does not apply
+}
+
+func (s *scenario) nodeIDs() []string {
+	if s.ids != nil {
+		return s.ids
+	}
+	return names(s.n)
 }
 
 func names(n int) []string {
@@ -82,6 +90,12 @@ func scenarios(c *Ctx) []*scenario {
 		{name: "chain6-maxhops3", n: 6, links: chain(6), maxHops: 3},
 		{name: "tree5", n: 5, links: [][2]int{{0, 1}, {0, 2}, {2, 3}, {2, 4}}, maxHops: 30},
 		{name: "ring4", n: 4, links: [][2]int{{0, 1}, {1, 2}, {2, 3}, {3, 0}}, maxHops: 30},
+		// node IDs with the separators of address formatting ("node:service", IPv6-looking IDs, paths,
+		// user@host, spaces, percent escapes) as origin, transit and destination: what Ping and
+		// Traceroute report must be the exact ID
+		{name: "chain5-colon-ids", n: 5, links: chain(5), maxHops: 30, ids: []string{"fd00::5", "a:b", ":x", "x:", "::"}},
+		{name: "tree5-separator-ids", n: 5, links: [][2]int{{0, 1}, {0, 2}, {2, 3}, {2, 4}}, maxHops: 30,
+			ids: []string{"n/0", "u@h", "sp ace", "p%41", "fd00::7"}},
 		// TestHopCountLimit: both nodes believe the other one leads to the phantom
 		{name: "loop2-phantom", n: 2, links: chain(2), maxHops: 30, phantoms: []string{"ghost"}, loopy: true,
 			setup: func(w *world) [][2]string {
@@ -188,10 +202,10 @@ func run(c *Ctx) {
 
 func runScenario(c *Ctx, im *Impl, cf *CaseFile, s *scenario) {
 	r := c.Rng
-	w, err := newWorld(s.name, names(s.n), s.links, s.maxHops, s.phantoms)
+	w, err := newWorld(s.name, s.nodeIDs(), s.links, s.maxHops, s.phantoms)
 	if err != nil { // a bounded wait ran out: once more on a fresh mesh before it counts
 		im.Hist("scenario-setup-repeated")
-		w, err = newWorld(s.name, names(s.n), s.links, s.maxHops, s.phantoms)
+		w, err = newWorld(s.name, s.nodeIDs(), s.links, s.maxHops, s.phantoms)
 	}
 	if err != nil {
 		im.Violate("scenario "+s.name+" (second attempt): "+err.Error(), "mesh-no-convergence", s.name)
